@@ -145,6 +145,184 @@ def form_table():
     return rows, '_default_' in ENUM_DW_FORM
 
 
+# ------------------------------------------------------------------ the header struct as data
+def _probe_version_pred(keyfunc):
+    """('ge', t) / ('lt', t) when keyfunc(ctx) == (ctx.version >= t) / (< t) on versions 0..9, else None"""
+    from elftools.construct.lib import Container
+    try:
+        vals = [bool(keyfunc(Container(version=v))) for v in range(10)]
+    except (AttributeError, KeyError):
+        return None
+    for t in range(1, 10):
+        if vals == [v >= t for v in range(10)]:
+            return ('ge', t)
+        if vals == [v < t for v in range(10)]:
+            return ('lt', t)
+    raise CannotExpress('version predicate with truth table %r' % (vals,))
+
+
+def _else_value(sw):
+    from elftools.construct import core as C
+    if set(sw.cases.keys()) != {True, False} or type(sw.cases[False]) is not C.Value:
+        raise CannotExpress('conditional %r is not If(...)' % (sw,))
+    v = sw.cases[False].func(None)
+    if v is not None and (isinstance(v, bool) or not isinstance(v, int)):
+        raise CannotExpress('elsevalue %r' % (v,))
+    return v
+
+
+def _same_mapping(con, enum_dict):
+    from elftools.construct import Enum
+    from elftools.common.construct_utils import ULEB128
+    ref = Enum(ULEB128(''), **enum_dict)
+    return type(con) is type(ref) and type(con.subcon) is ULEB128 and \
+        all(getattr(con, a) == getattr(ref, a) or getattr(con, a) is getattr(ref, a)
+            for a in ('decoding', 'encoding', 'decdefault', 'encdefault'))
+
+
+def _is_cstring(con, little):
+    try:
+        return _classify(con, little) == ('KCString',)
+    except CannotExpress:
+        return False
+
+
+def _walk_member(con, little, seen, structs):
+    """shape of one member of the header struct as a nested tuple (leaves: pkind tuples)"""
+    from elftools.construct import core as C
+    from elftools.construct import adapters as A
+    from elftools.construct.lib import Container
+    from elftools.common import construct_utils as U
+    from elftools.dwarf.enums import ENUM_DW_LNCT, ENUM_DW_FORM
+    t = type(con)
+    if t.__name__ == '_InitialLengthAdapter':
+        st = con.subcon
+        if type(st) is not C.Struct or len(st.subcons) != 2:
+            raise CannotExpress('initial length over %r' % (st,))
+        first, second = st.subcons
+        if first.name != 'first' or _classify(first, little) != ('KUInt', 4) or type(second) is not C.Switch \
+                or second.name != 'second' or _else_value(second) is not None \
+                or _classify(second.cases[True], little) != ('KUInt', 8) \
+                or not second.keyfunc(Container(first=0xFFFFFFFF)) or second.keyfunc(Container(first=0xFFFFFFFE)) \
+                or con._decode(Container(first=5, second=None), Container()) != 5 \
+                or con._decode(Container(first=0xFFFFFFFF, second=77), Container()) != 77:
+            raise CannotExpress('initial length struct %r' % (st,))
+        return ('HInitialLength',)
+    if t is C.Switch:
+        dflt = _else_value(con)
+        then = con.cases[True]
+        pv = _probe_version_pred(con.keyfunc)
+        if pv is not None:
+            return ('HIfVerGe' if pv[0] == 'ge' else 'HIfVerLt', pv[1], _walk_member(then, little, seen, structs), dflt)
+        # If(lambda ctx: bool(ctx.<field>), Embed(Struct('', ...)))
+        for name in seen:
+            try:
+                if con.keyfunc(Container(**{name: b''})) is False and con.keyfunc(Container(**{name: b'x'})) is True:
+                    inner = then.subcon if type(then) is C.Reconfig else None
+                    if dflt is not None or type(inner) is not C.Struct or not (then.conflags & then.FLAG_EMBED):
+                        raise CannotExpress('conditional on %s over %r' % (name, then))
+                    return ('HIfNonEmpty', name, tuple((f.name, _classify(f, little)) for f in inner.subcons))
+            except (AttributeError, KeyError):
+                continue
+        raise CannotExpress('unrecognised condition of %r' % (con,))
+    if t is C.MetaArray:
+        for name in seen:
+            try:
+                if all(con.countfunc(Container(**{name: n})) == n - 1 for n in (1, 10, 255)):
+                    return ('HCountMinus1', name, _classify(con.subcon, little))
+            except (AttributeError, KeyError, TypeError):
+                continue
+        raise CannotExpress('array count of %r' % (con,))
+    if t is A.LengthValueAdapter:
+        seq = con.subcon
+        if type(seq) is not C.Sequence or len(seq.subcons) != 2 or type(seq.subcons[1]) is not C.MetaArray:
+            raise CannotExpress('PrefixedArray %r' % (seq,))
+        cnt, arr = seq.subcons
+        if arr.countfunc(Container(**{cnt.name: 7})) != 7:
+            raise CannotExpress('PrefixedArray count is not its length field')
+        return ('HPrefixed', cnt.name, _classify(cnt, little), _walk_member(arr.subcon, little, seen, structs))
+    if t is C.Struct and [f.name for f in con.subcons] == ['content_type', 'form']:
+        if not (_same_mapping(con.subcons[0], ENUM_DW_LNCT) and _same_mapping(con.subcons[1], ENUM_DW_FORM)):
+            raise CannotExpress('entry format struct does not use Enum(ULEB128, ENUM_DW_LNCT/ENUM_DW_FORM)')
+        return ('HFormatStruct',)
+    if t.__name__ == 'FormattedEntry':
+        if con.structs is not structs or not isinstance(con.format_field, str):
+            raise CannotExpress('FormattedEntry %r' % (con,))
+        return ('HFormattedEntry', con.format_field)
+    if t is U.RepeatUntilExcluding:
+        if _is_cstring(con.subcon, little):
+            if con.predicate(b'', None) is True and con.predicate(b'x', None) is False:
+                return ('HUntilEmptyString',)
+        elif type(con.subcon) is C.Struct:
+            if _walk_struct(con.subcon, little, structs) == _walk_struct(structs.Dwarf_lineprog_file_entry, little, structs) \
+                    and con.predicate(Container(name=b''), None) and not con.predicate(Container(name=b'x'), None):
+                return ('HUntilEmptyName',)
+        raise CannotExpress('RepeatUntilExcluding %r' % (con,))
+    return ('HField', _classify(con, little))
+
+
+def _walk_struct(st, little, structs):
+    from elftools.construct import core as C
+    if type(st) is not C.Struct:
+        raise CannotExpress('%r is not a Struct' % (st,))
+    out, seen = [], []
+    for m in st.subcons:
+        if not isinstance(m.name, str):
+            raise CannotExpress('unnamed member %r' % (m,))
+        out.append((m.name, _walk_member(m, little, seen, structs)))
+        seen.append(m.name)
+    return tuple(out)
+
+
+def _merge_shape(shapes):
+    """shapes: {config: nested tuple} -> configuration independent nested tuple"""
+    vals = list(shapes.values())
+    if all(v == vals[0] for v in vals):
+        return vals[0]
+    v0 = vals[0]
+    if isinstance(v0, tuple) and v0 and isinstance(v0[0], str) and v0[0].startswith('K'):
+        return _merge(shapes)
+    if not isinstance(v0, tuple) or any(not isinstance(v, tuple) or len(v) != len(v0) for v in vals):
+        raise CannotExpress('header shape differs between configurations: %r' % (shapes,))
+    return tuple(_merge_shape({c: v[i] for c, v in shapes.items()}) for i in range(len(v0)))
+
+
+def _shape_coq(x):
+    tag = x[0]
+    opt = lambda v: 'None' if v is None else '(Some %s)' % F.z(v)
+    if tag == 'HInitialLength' or tag == 'HFormatStruct' or tag == 'HUntilEmptyString' or tag == 'HUntilEmptyName':
+        return tag
+    if tag == 'HField':
+        return '(HField %s)' % _kind_coq(x[1])
+    if tag in ('HIfVerGe', 'HIfVerLt'):
+        return '(%s %s %s %s)' % (tag, F.z(x[1]), _shape_coq(x[2]), opt(x[3]))
+    if tag == 'HIfNonEmpty':
+        return '(HIfNonEmpty %s %s)' % (F.string(x[1]), F.lst(('(%s, %s)' % (F.string(n), _kind_coq(k)) for n, k in x[2]), per_line=0))
+    if tag == 'HCountMinus1':
+        return '(HCountMinus1 %s %s)' % (F.string(x[1]), _kind_coq(x[2]))
+    if tag == 'HPrefixed':
+        return '(HPrefixed %s %s %s)' % (F.string(x[1]), _kind_coq(x[2]), _shape_coq(x[3]))
+    if tag == 'HFormattedEntry':
+        return '(HFormattedEntry %s)' % F.string(x[1])
+    raise CannotExpress('shape %r' % (x,))
+
+
+def header_layout():
+    from elftools.dwarf.structs import DWARFStructs
+    configs = [(le, fmt, a) for le in (True, False) for fmt in (32, 64) for a in (4, 8)]
+    hs, fs = {}, {}
+    for c in configs:
+        for ver in (2, 5):     # the struct must not depend on the dwarf_version the structs were made for
+            st = DWARFStructs(little_endian=c[0], dwarf_format=c[1], address_size=c[2], dwarf_version=ver)
+            hs[c + (ver,)] = _walk_struct(st.Dwarf_lineprog_header, c[0], st)
+            fs[c + (ver,)] = _walk_struct(st.Dwarf_lineprog_file_entry, c[0], st)
+    hs = {c[:3]: v for c, v in hs.items() if all(hs[c[:3] + (w,)] == v for w in (2, 5))}
+    fs = {c[:3]: v for c, v in fs.items() if all(fs[c[:3] + (w,)] == v for w in (2, 5))}
+    if len(hs) != len(configs) or len(fs) != len(configs):
+        raise CannotExpress('Dwarf_lineprog_header depends on the dwarf_version of the structs')
+    return _merge_shape(hs), _merge_shape(fs)
+
+
 def generate():
     from elftools.dwarf.enums import ENUM_DW_LNCT
     from elftools.construct import Pass
@@ -167,6 +345,10 @@ def generate():
     out.append('Definition c05_form_default : bool := %s.\n' % F.boolean(fdef))
     out.append('Definition tbl_c05_forms : list (Z * (string * pkind)) := %s.\n' % F.lst(
         '(%s, (%s, %s))' % (F.z(v), F.string(n), _kind_coq(k)) for v, n, k in rows))
+    hl, fl = header_layout()
+    for nm, lay in (('gen_c05_header', hl), ('gen_c05_file_entry', fl)):
+        out.append('Definition %s : list (string * hfield) := %s.\n' % (
+            nm, F.lst('(%s, %s)' % (F.string(n), _shape_coq(x)) for n, x in lay)))
     return {'C05Tables.v': '\n'.join(out)}
 
 
